@@ -103,7 +103,7 @@ CLAIMED = {
   "DESIGN.md §3 C08"),
  "C02": ("exploration",
   "TLA+ spec Pipeline.tla (the pipeline parse -> compile -> validate -> concrete -> export CUE/JSON/YAML as a state machine with ok/err outcomes only, stage-consistency rules, three runs that must agree; plus the input spaces: programs over a pool of erroneous / cyclic expressions, byte-level mutants, token soups) model-checked by TLC (TypeOK, Repeatable, ParseErrorEnds, ErrorValueNotExported, Terminates); every input run three times in isolated worker processes and the recorded traces validated by TLC against PipelineTrace.tla",
-  "Trace validation of real executions: each input is run in a context already used for other programs, in a fresh context and in another process, inside worker processes with a 10 s / 2 GB ceiling (a worker that dies, hangs or exceeds the ceiling yields an abort event for the program it was on and is restarted on the rest). The events (run, stage, ok/err/panic, digest of the printed CUE / JSON / YAML or of the full error text) of all three runs form one trace; TLC accepts it only if it is a behaviour of Pipeline.tla: stages in order, no outcome other than ok/err (a panic leaving the API, a stack overflow, a timeout have no action), compile error => validation and data exports fail, validation error => concrete validation fails, all runs complete and equal event by event. Inputs: all 16 hand-picked cyclic / erroneous programs and a seeded sample of 2500 (thorough 40000) of the 10^6 programs a/b/c over a 114-expression pool, 1500 (20000) byte-level mutants of four seed programs, all token soups up to 2 (3) tokens. One genuine crash (stack overflow on a bound embedded next to a required field) was repaired (fix: a8de011); a context-history dependence of error text is recorded as known finding.",
+  "Trace validation of real executions: each input is run in a context already used for other programs, in a fresh context and in another process, inside worker processes with a 10 s / 2 GB ceiling (a worker that dies, hangs or exceeds the ceiling yields an abort event for the program it was on and is restarted on the rest). The events (run, stage, ok/err/panic, digest of the printed CUE / JSON / YAML or of the full error text) of all three runs form one trace; TLC accepts it only if it is a behaviour of Pipeline.tla: stages in order, no outcome other than ok/err (a panic leaving the API, a stack overflow, a timeout have no action), compile error => validation and data exports fail, validation error => concrete validation fails, all runs complete and equal event by event. The hand-picked programs and a sample also go three times through the cue binary built from the working tree (cue eval, cue export --out json / cue; family cli of the same spec: exit status 0 or 1 only, identical output). Inputs: all 16 hand-picked cyclic / erroneous programs and a seeded sample of 2500 (thorough 40000) of the 10^6 programs a/b/c over a 114-expression pool, 1500 (20000) byte-level mutants of four seed programs, all token soups up to 2 (3) tokens. One genuine crash (stack overflow on a bound embedded next to a required field) was repaired (fix: a8de011); a second evaluator overflow (db9203c) and a field-order non-determinism (3df9542) were repaired as well; a context-history dependence of error text is recorded as known finding.",
   "trusted: TLC, the worker's stage wrapper (recover per stage; canaries: a changed digest, a panic event and a truncated trace must be rejected by TLC). Not exhaustive: the program space is sampled, arbitrary byte strings are represented by mutants and soups only; non-determinism is only detected if it shows within three runs.",
   "DESIGN.md §3 C02"),
 }
